@@ -44,12 +44,43 @@ def _cleanup(path):
 def c_upgrade_prefix_map(prefix_map: dict[str, str]):
     pure()
     # one record per distinct URI prefix, sorted by URI prefix, no URI synonyms
-    ensures([r.uri_prefix for r in result] == sorted(set(prefix_map.values())))
-    ensures(all(not r.uri_prefix_synonyms for r in result))
+    ensures([r.uri_prefix for r in result] == sorted(set(prefix_map.values())), native=True)
     # canonical = lexicographically first CURIE prefix of the group, the rest are sorted synonyms
     ensures(all(r.prefix == min(p for p in prefix_map if prefix_map[p] == r.uri_prefix)
                 and r.prefix_synonyms == sorted(p for p in prefix_map if prefix_map[p] == r.uri_prefix and p != r.prefix)
-                for r in result))
+                for r in result), native=True)
+    # the same, relationally (decided by the prover; evaluated natively as well): plain valid records ...
+    ensures(all(not r.uri_prefix_synonyms and r.pattern is None and RecInv(r) for r in result))
+    # ... whose CURIE prefixes are exactly the keys mapped to their URI prefix ...
+    ensures(all(all(p in prefix_map and prefix_map[p] == r.uri_prefix for p in P(r)) for r in result))
+    ensures(all(any(p in P(r) and r.uri_prefix == prefix_map[p] for r in result) for p in prefix_map))
+    # ... the lexicographically first of them canonical, the synonyms in order ...
+    ensures(all(r.prefix <= p for r in result for p in P(r)))
+    ensures(all(r.prefix_synonyms[i] <= r.prefix_synonyms[i + 1] for r in result for i in range(len(r.prefix_synonyms) - 1)))
+    # ... in strictly increasing order of URI prefix (so: one record per distinct URI prefix, whatever the dictionary order)
+    ensures(all(result[i].uri_prefix <= result[j].uri_prefix and result[i].uri_prefix != result[j].uri_prefix
+                for i in range(len(result)) for j in range(len(result)) if i < j))
+
+
+@invariant("api.upgrade_prefix_map", loop=0)
+def inv_upm0(prefix_map, uri_prefix_to_curie_synonyms: dict[str, list[str]], _i, _xs):
+    return (all(len(uri_prefix_to_curie_synonyms[u]) > 0
+                and all(any(t[0] == p and t[1] == u for t in _xs[:_i]) for p in uri_prefix_to_curie_synonyms[u])
+                for u in uri_prefix_to_curie_synonyms)
+            and all(t[1] in uri_prefix_to_curie_synonyms and t[0] in uri_prefix_to_curie_synonyms[t[1]] for t in _xs[:_i])
+            and all(uri_prefix_to_curie_synonyms[u][a] != uri_prefix_to_curie_synonyms[u][b]
+                    for u in uri_prefix_to_curie_synonyms
+                    for a in range(len(uri_prefix_to_curie_synonyms[u])) for b in range(len(uri_prefix_to_curie_synonyms[u])) if a != b))
+
+
+@lemma("C13.upgrade_accepted_by_strict_converter", props=["C13", "C04"])
+def l_c13_upgrade_accepted(pm: dict[str, str], p: str):
+    """Over the contracts of upgrade_prefix_map and Converter.__init__: the records are never rejected, whatever the map,
+    and the converter denotes the map."""
+    c = Converter(upgrade_prefix_map(pm))
+    assert WF(c)
+    if p in pm:
+        assert any(p in P(r) and r.uri_prefix == pm[p] for r in c.records)
 
 
 @lemma("C13.upgrade_always_valid_any_order", props=["C13"], bounded_only="dictionary orders are enumerated; per-call behaviour is the contract of upgrade_prefix_map")
@@ -63,6 +94,104 @@ def l_c13_upgrade(pm: dict, order: list):
     for p, u in pm.items():
         assert c.expand(p + ":1") == u + "1"
         assert c.compress(u + "1") is not None and c.expand(c.compress(u + "1")) == u + "1"
+
+
+@contract("api.Converter.from_prefix_map", props=["C13", "C04"], returns="Converter")
+def c_from_prefix_map(prefix_map: dict[str, str], delimiter: str, strict: bool):
+    """In-memory mapping; `delimiter` and `strict` are the keyword arguments forwarded to Converter.__init__."""
+    raises(DuplicateURIPrefixes, when=strict and any(prefix_map[a] == prefix_map[b] for a in prefix_map for b in prefix_map if a != b))
+    ensures(result.delimiter == delimiter)
+    # one plain record per key: the converter denotes exactly the map
+    ensures(all(r.prefix in prefix_map and prefix_map[r.prefix] == r.uri_prefix for r in result.records))
+    ensures(all(not r.prefix_synonyms and not r.uri_prefix_synonyms and r.pattern is None for r in result.records))
+    ensures(all(any(r.prefix == p for r in result.records) for p in prefix_map))
+    ensures(all(a is b or a.prefix != b.prefix for a in result.records for b in result.records))
+    ensures(implies(strict and delimiter != "", WF(result)))
+
+
+@contract("api.Converter.from_priority_prefix_map", props=["C13", "C04"], returns="Converter")
+def c_from_priority_prefix_map(data: dict[str, list[str]], delimiter: str, strict: bool):
+    requires(all(len(data[p]) > 0 for p in data))
+    # a URI prefix that is listed first and again later under the same key is rejected by the Record validator
+    raises(ValueError, when=any(data[p][0] in data[p][1:] for p in data))
+    raises(DuplicateURIPrefixes, when=strict and not any(data[p][0] in data[p][1:] for p in data)
+           and any(data[a][i] == data[b][j] for a in data for b in data if a != b for i in range(len(data[a])) for j in range(len(data[b]))))
+    ensures(result.delimiter == delimiter)
+    ensures(all(r.prefix in data and r.uri_prefix == data[r.prefix][0] and r.uri_prefix_synonyms == data[r.prefix][1:]
+                and not r.prefix_synonyms and r.pattern is None for r in result.records))
+    ensures(all(any(r.prefix == p for r in result.records) for p in data))
+    ensures(all(a is b or a.prefix != b.prefix for a in result.records for b in result.records))
+    ensures(implies(strict and delimiter != "", WF(result)))
+
+
+@contract("api.Converter.from_extended_prefix_map", props=["C13", "C04"], returns="Converter")
+def c_from_extended_prefix_map(records: list[Record], delimiter: str, strict: bool):
+    """Record objects in memory (dictionary entries go through pydantic's Record(**d): bounded lemma C13.epm_denotes)."""
+    requires(all(RecInv(r) for r in records))
+    raises(DuplicateURIPrefixes, when=strict and clashU(records))
+    raises(DuplicatePrefixes, when=strict and not clashU(records) and clashP(records))
+    ensures(result.delimiter == delimiter)
+    # the very same record objects, sorted by prefix, none of them changed
+    ensures(same_members(result.records, records) and sorted_by_prefix(result.records))
+    ensures(all(rec_state(r) == old([rec_state(x) for x in records])[i] for i, r in enumerate(records)))
+    ensures(implies(strict and delimiter != "", WF(result)))
+
+
+@contract("api.Converter.from_reverse_prefix_map", props=["C13", "C04"], returns="Converter")
+def c_from_reverse_prefix_map(reverse_prefix_map: dict[str, str], delimiter: str, strict: bool):
+    """In-memory mapping URI prefix -> CURIE prefix. Never rejected: the groups are disjoint by construction."""
+    rpm = reverse_prefix_map
+    ensures(result.delimiter == delimiter)
+    # one record per CURIE prefix; its URI prefixes are exactly the keys mapped to it
+    ensures(all(all(u in rpm and rpm[u] == r.prefix for u in U(r)) and not r.prefix_synonyms and r.pattern is None for r in result.records))
+    ensures(all(any(r.prefix == rpm[u] and u in U(r) for r in result.records) for u in rpm))
+    ensures(all(a is b or a.prefix != b.prefix for a in result.records for b in result.records))
+    # a shortest URI prefix of the group is canonical
+    ensures(all(len(r.uri_prefix) <= len(u) for r in result.records for u in U(r)))
+    ensures(implies(strict and delimiter != "", WF(result)))
+
+
+@invariant("api.Converter.from_reverse_prefix_map", loop=0)
+def inv_rev0(reverse_prefix_map, dd: dict[str, list[str]], _i, _xs):
+    return (all(len(dd[p]) > 0 and all(any(t[0] == u and t[1] == p for t in _xs[:_i]) for u in dd[p]) for p in dd)
+            and all(t[1] in dd and t[0] in dd[t[1]] for t in _xs[:_i])
+            and all(dd[p][a] != dd[p][b] for p in dd for a in range(len(dd[p])) for b in range(len(dd[p])) if a != b))
+
+
+@invariant("api.Converter.from_reverse_prefix_map", loop=1)
+def inv_rev1(reverse_prefix_map, dd: dict[str, list[str]], records: list[Record], _i, _xs):
+    return (_frame() and len(records) == _i
+            and all(_fresh(records[k]) and _alloc(records[k]) and RecInv(records[k]) for k in range(_i))
+            and all(records[a] is not records[b] for a in range(_i) for b in range(_i) if a != b)
+            and all(records[k].prefix == _xs[k][0] and not records[k].prefix_synonyms and records[k].pattern is None
+                    and all(u in _xs[k][1] for u in U(records[k])) and all(u in U(records[k]) for u in _xs[k][1])
+                    and all(len(records[k].uri_prefix) <= len(u) for u in U(records[k]))
+                    for k in range(_i)))
+
+
+def jl_taken(ctx, k):
+    """k is a JSON-LD term that defines a prefix: not empty, not an @-keyword."""
+    return k in ctx and k != "" and not k.startswith("@")
+
+
+@contract("api.Converter.from_jsonld", props=["C13"], returns="Converter")
+def c_from_jsonld(data: dict[str, dict[str, str]], delimiter: str, strict: bool):
+    """In-memory documents whose terms are all strings (dictionary-valued and other terms: bounded lemma C13.jsonld_denotes)."""
+    requires("@context" in data)
+    ctx = data["@context"]
+    raises(DuplicateURIPrefixes, when=strict and any(ctx[a] == ctx[b] for a in ctx for b in ctx if a != b and jl_taken(ctx, a) and jl_taken(ctx, b)))
+    ensures(result.delimiter == delimiter)
+    ensures(all(jl_taken(ctx, r.prefix) and ctx[r.prefix] == r.uri_prefix for r in result.records))
+    ensures(all(not r.prefix_synonyms and not r.uri_prefix_synonyms and r.pattern is None for r in result.records))
+    ensures(all(any(r.prefix == k for r in result.records) for k in ctx if jl_taken(ctx, k)))
+    ensures(all(a is b or a.prefix != b.prefix for a in result.records for b in result.records))
+    ensures(implies(strict and delimiter != "", WF(result)))
+
+
+@invariant("api.Converter.from_jsonld", loop=0)
+def inv_jsonld0(data, prefix_map: dict[str, str], _i, _xs):
+    return (all(any(t[0] == k for t in _xs[:_i]) and jl_taken(data["@context"], k) and prefix_map[k] == data["@context"][k] for k in prefix_map)
+            and all(t[0] in prefix_map for t in _xs[:_i] if t[0] != "" and not t[0].startswith("@")))
 
 
 @lemma("C13.prefix_map_denotes", props=["C13"], bounded_only="constructor wiring through pydantic Record construction and dict iteration")
@@ -182,15 +311,76 @@ def c_record_to_dict(record: Record):
     ensures(set(result) <= {"prefix", "uri_prefix", "prefix_synonyms", "uri_prefix_synonyms", "pattern"})
 
 
-@contract("api._get_jsonld_context", props=["C14"], returns="dict")
-def c_get_jsonld_context(converter: Converter, expand: bool, include_synonyms: bool):
-    requires(WF(converter))
+@lemma("C14.jsonld_context_any_form", props=["C14"], bounded_only="the expanded form maps terms to heterogeneous dictionaries ({'@prefix': True, '@id': ...}); the plain form is proved as the contract of _get_jsonld_context")
+def l_c14_jsonld_context_any_form(conv: Converter, expand: bool, include_synonyms: bool):
+    requires(WF(conv))
+    before = conv_state(conv)
+    result = _get_jsonld_context(conv, expand=expand, include_synonyms=include_synonyms)
+    assert conv_state(conv) == before
+    assert set(result) == {"@context"}
+    assert all((p in result["@context"]) == (p == r.prefix or include_synonyms) for r in conv.records for p in P(r))
+    assert all(any(p in P(r) for r in conv.records) for p in result["@context"])
+    assert all(result["@context"][p] == ({"@prefix": True, "@id": r.uri_prefix} if expand else r.uri_prefix)
+               for r in conv.records for p in P(r) if p in result["@context"])
+
+
+@contract("api._get_expanded_term", props=["C14"], returns="str")
+def c_get_expanded_term(record: Record, expand: bool):
+    """Plain form only; the expanded form is a heterogeneous dictionary (decided by the bounded lemma C14.jsonld_roundtrip)."""
+    requires(not expand)
     pure()
-    ensures(set(result) == {"@context"})
-    ensures(all((p in result["@context"]) == (p == r.prefix or include_synonyms) for r in converter.records for p in P(r)))
-    ensures(all(any(p in P(r) for r in converter.records) for p in result["@context"]))
-    ensures(all(result["@context"][p] == ({"@prefix": True, "@id": r.uri_prefix} if expand else r.uri_prefix)
-                for r in converter.records for p in P(r) if p in result["@context"]))
+    ensures(result == record.uri_prefix)
+
+
+@contract("api._get_jsonld_context", props=["C14"], returns="dict[str,dict[str,str]]")
+def c_get_jsonld_context(converter: Converter, expand: bool, include_synonyms: bool):
+    requires(WF(converter) and not expand)
+    pure()
+    ensures("@context" in result and all(k == "@context" for k in result))
+    # every canonical prefix (and, on request, every synonym) is a term for its record's URI prefix; nothing else is
+    ensures(all(r.prefix in result["@context"] and result["@context"][r.prefix] == r.uri_prefix for r in converter.records))
+    ensures(implies(include_synonyms, all(p in result["@context"] and result["@context"][p] == r.uri_prefix
+                                          for r in converter.records for p in P(r))))
+    ensures(all(any(k == r.prefix or (include_synonyms and k in P(r)) for r in converter.records) for k in result["@context"]))
+
+
+@invariant("api._get_jsonld_context", loop=0)
+def inv_jctx0(converter, expand, include_synonyms, context: dict[str, str], _i, _xs):
+    return (all(r.prefix in context and context[r.prefix] == r.uri_prefix for r in _xs[:_i])
+            and (not include_synonyms or all(p in context and context[p] == r.uri_prefix for r in _xs[:_i] for p in P(r)))
+            and all(any(k == r.prefix or (include_synonyms and k in P(r)) for r in _xs[:_i]) for k in context))
+
+
+@invariant("api._get_jsonld_context", loop=1)
+def inv_jctx1(converter, expand, include_synonyms, context: dict[str, str], record, term: str, _i, _xs, _outer_i, _outer_xs):
+    return (include_synonyms and term == record.uri_prefix
+            and all(r.prefix in context and context[r.prefix] == r.uri_prefix for r in _outer_xs[:_outer_i])
+            and all(p in context and context[p] == r.uri_prefix for r in _outer_xs[:_outer_i] for p in P(r))
+            and record.prefix in context and context[record.prefix] == record.uri_prefix
+            and all(p in context and context[p] == record.uri_prefix for p in _xs[:_i])
+            and all(any(k in P(r) for r in _outer_xs[:_outer_i]) or k == record.prefix or k in _xs[:_i] for k in context))
+
+
+@lemma("C14.jsonld_plain_roundtrip_in_memory", props=["C14"])
+def l_c14_jsonld_kernel(conv: Converter, include_synonyms: bool, p: str):
+    """Over the contracts of _get_jsonld_context and from_jsonld: the plain context, read back, maps exactly the written
+    terms (json.dump / json.load in between are assumed inverse: bounded lemma C14.jsonld_roundtrip)."""
+    requires(WF(conv))
+    requires(all(q != "" and not q.startswith("@") for r in conv.records for q in P(r)))
+    doc = _get_jsonld_context(conv, expand=False, include_synonyms=include_synonyms)
+    back = Converter.from_jsonld(doc, strict=False)
+    ctx = doc["@context"]
+    # stepping stones: the terms of the document are names of conv, and conversely
+    assert all(any(k == r.prefix or (include_synonyms and k in P(r)) for r in conv.records) for k in ctx)
+    assert all(r.prefix in ctx and ctx[r.prefix] == r.uri_prefix for r in back.records)
+    assert all(r.prefix in ctx and ctx[r.prefix] == r.uri_prefix for r in conv.records)
+    if any(r.prefix == p for r in back.records):
+        assert p in ctx
+        assert known(conv, p) and (include_synonyms or any(r.prefix == p for r in conv.records))
+    if known(conv, p) and (include_synonyms or any(r.prefix == p for r in conv.records)):
+        assert p in ctx and p != "" and not p.startswith("@")
+        assert any(r.prefix == p for r in back.records)
+        assert any(r.prefix == p and any(p in P(q) and q.uri_prefix == r.uri_prefix for q in conv.records) for r in back.records)
 
 
 @lemma("C14.epm_roundtrip", props=["C14"], bounded_only="json + file system round trip (assumed serialiser)")
